@@ -8,6 +8,7 @@ from hypothesis import strategies as st
 
 from harness.loader import load
 from harness.runner import Part
+from harness import build as B
 from harness import values as V
 from harness import relational as R
 from harness.refmodel import freeze, same, ref_agg, belongs, NUM, TMP
@@ -61,7 +62,7 @@ def run_arith(case, ctx):
         if None in a or None in b:
             ctx.nontrivial()
         return
-    va, vb = S.Vector(list(a)), S.Vector(list(b))
+    va, vb = B.vector(a), B.vector(b)
     for name, op in c05._ops_for(fam):
         forms = [
             ("vector", lambda: op(va, vb), a, b), ("scalar", lambda: op(va, case["sb"]), a, [case["sb"]] * n),
@@ -180,7 +181,7 @@ def red_case(draw, tier="quick"):
 def run_red(case, ctx):
     vals, k = case["vals"], case["k"]
     clean = [x for x in vals if x is not None]
-    v = S.Vector(list(vals))
+    v = B.vector(vals)
     vc = S.Vector(list(clean))
     if len(v) != len(vals):
         return ctx.fail("len/does-not-count-none", f"len={len(v)} for {vals}")
